@@ -477,7 +477,7 @@ def _c13_3_case(n_pollers, polls, run_afters, crash_budget, max_waits,
            'ThreadPoolExecutor -> inline', 'job target -> recorder'],
     outside='more than 1 job / 3 instances; ThreadPoolExecutor internals; '
             'liveness beyond the bounded epilogue (one late poll)',
-    timeout=(240, 1500))
+    timeout=(300, 3600))
 def c13_3(ctx):
     """not early; rolled back => never run; re-capture only after the
     timeout; exactly once if capturers finish in time; never lost; a late
